@@ -182,7 +182,7 @@ func genCrashShape(repo string) (string, error) {
 		return tb("Reset does not delete the share and the group file exactly once each: %v", resetOrder)
 	}
 	// key.Save: in place, or write aside + Sync + Close + rename (shape read by sfSaveShape)
-	inPlace, atomicRename, _, err := sfSaveShape(ks)
+	inPlace, atomicRename, _, _, err := sfSaveShape(ks)
 	if err != nil {
 		return "", fmt.Errorf("T-break: crashshape: %w", err)
 	}
